@@ -522,6 +522,45 @@ def guards_of(node, stop=None):
     return out
 
 
+def keyed_values(fn, key):
+    """the expressions a function binds to the constant mapping key `key`: {key: v} displays, dict(..., key=v) / .update(key=v)
+    keywords and m[key] = v stores"""
+    out = []
+    for n in walk_func(fn):
+        if isinstance(n, ast.Dict):
+            for k, v in zip(n.keys, n.values):
+                if k is not None and const(k) == key:
+                    out.append(v)
+        elif isinstance(n, ast.Call) and (dotted(n.func) == "dict" or (isinstance(n.func, ast.Attribute) and n.func.attr in ("update", "setdefault"))):
+            for k in n.keywords:
+                if k.arg == key:
+                    out.append(k.value)
+            if isinstance(n.func, ast.Attribute) and n.func.attr == "setdefault" and len(n.args) == 2 and const(n.args[0]) == key:
+                out.append(n.args[1])
+        elif isinstance(n, ast.Assign):
+            for t in n.targets:
+                if isinstance(t, ast.Subscript) and const(t.slice) == key:
+                    out.append(n.value)
+    return out
+
+
+def guard_implies(guards, text):
+    """the guards (from guards_of) make the condition `text` true: it is a guard taken true, or a conjunct of one"""
+    for t, v in guards:
+        if not v:
+            # not (A or B) makes neither true; nothing follows for `text`
+            continue
+        if t == text:
+            return True
+        try:
+            e = ast.parse(t, mode="eval").body
+        except SyntaxError:
+            continue
+        if isinstance(e, ast.BoolOp) and isinstance(e.op, ast.And) and any(src(x) == text for x in e.values):
+            return True
+    return False
+
+
 def return_leaves(fn):
     """[(value expression, [(condition text, truth)] guards)] for every alternative a function can return:
     one entry per return statement and per arm of a conditional expression returned"""
